@@ -94,3 +94,12 @@ Theorem C01_map_refuted_witness :
                  ∧ read_mv y 0 = Some [5] ∧ read_mv z 0 = Some [5] ∧ x ≠ y ∧ x ≠ z.
 Proof. exact map_T1_order_refuted. Qed.
 Print Assumptions C01_map_refuted_witness.
+
+From Crdt Require Import model.Map spec.System spec.OrswotSpec spec.OrswotSystem spec.MapSpec spec.MapSystem proofs.OrswotSystem proofs.MapKeys.
+
+(** Map, key level: replicas with the same knowledge show the same keys and contexts *)
+Theorem C01_map_keys_converge {V O E} (vo : valops V O E) (H : list (oprec (mop O))) :
+  maphist_ok vo H ->
+  forall (s1 s2 : cmap V) (K : gset nat), mapreach vo H s1 K -> mapreach vo H s2 K -> kabs s1 = kabs s2.
+Proof. exact (map_keys_converge_api vo H). Qed.
+Print Assumptions C01_map_keys_converge.
